@@ -27,10 +27,10 @@ import seqcheck
 
 SPEC = {
     "prop": "C19",
-    "lean_targets": ["InfernoVerif.Props.C19", "InfernoVerif.Props.C19Glue", "InfernoVerif.Props.C19GlueProg", "InfernoVerif.Gen.Dispatch"],
-    "translate": ["EncoderSites", "EncoderProg"],
+    "lean_targets": ["InfernoVerif.Props.C19", "InfernoVerif.Props.C19Glue", "InfernoVerif.Props.C19GlueProg", "InfernoVerif.Props.C19GlueCls", "InfernoVerif.Gen.Dispatch"],
+    "translate": ["EncoderSites", "EncoderProg", "EncClsProg"],
     "driver_targets": ["InfernoVerif.Model.Encoder", "InfernoVerif.Drv.Proto", "InfernoVerif.Gen.Dispatch"],
-    "prop_files": ["InfernoVerif/Props/C19.lean", "InfernoVerif/Props/C19Glue.lean", "InfernoVerif/Props/C19GlueProg.lean"],
+    "prop_files": ["InfernoVerif/Props/C19.lean", "InfernoVerif/Props/C19Glue.lean", "InfernoVerif/Props/C19GlueProg.lean", "InfernoVerif/Props/C19GlueCls.lean"],
     "lemma_files": ["InfernoVerif/Lemmas/Encoder.lean"],
     "model_files": ["InfernoVerif/Model/Encoder.lean"],
     "driver": "drivers/C19.lean",
